@@ -570,6 +570,17 @@ func (bi *bitInterp) binop(x *ssa.BinOp, a, b aval) (aval, bool) {
 		// comparison of an untouched input with a constant = atom
 		cst, isConst := b.b.asConst()
 		if p, isParam := x.X.(*ssa.Parameter); isParam && isConst {
+			// the order comparisons are all spellings of "p <= bound"
+			switch {
+			case x.Op == token.LEQ:
+				return aval{kind: "bool", t: bi.rangeAtomValue(p.Name(), cst)}, true
+			case x.Op == token.GTR:
+				return aval{kind: "bool", t: !bi.rangeAtomValue(p.Name(), cst)}, true
+			case x.Op == token.LSS && cst > 0:
+				return aval{kind: "bool", t: bi.rangeAtomValue(p.Name(), cst-1)}, true
+			case x.Op == token.GEQ && cst > 0:
+				return aval{kind: "bool", t: !bi.rangeAtomValue(p.Name(), cst-1)}, true
+			}
 			name := atomName(x.Op, p.Name(), cst)
 			bi.seen[name] = true
 			return aval{kind: "bool", t: bi.atoms[name]}, true
